@@ -247,7 +247,7 @@ func (st *c03State) route(f *c03Flow) refDecision {
 
 func (st *c03State) hasWanUdpDirect() bool {
 	for _, f := range st.flows {
-		if f.kind == 1 && !f.p.tcp && f.tracked && f.pos < len(f.script) && f.daeOwned == 0 &&
+		if (f.kind == 1 || f.kind == 2) && !f.originIn && !f.p.tcp && f.tracked && f.pos < len(f.script) && f.daeOwned == 0 &&
 			f.decision.outbound == uint8(consts.OutboundDirect) && f.decision.mark == 0 && !f.decision.must {
 			return true
 		}
@@ -908,6 +908,10 @@ func (st *c03State) sendNext(f *c03Flow) {
 		}
 		d = f.decision
 	default:
+		if f.tracked && f.tainted && st.hasState(f, false) {
+			// the datapath managed to store the flow this time: tracking restarts with this datagram
+			f.tracked = false
+		}
 		if !f.tracked {
 			f.tracked, f.tainted, f.originIn = true, false, false
 			f.decision = st.route(f)
@@ -930,6 +934,10 @@ func (st *c03State) sendNext(f *c03Flow) {
 			f.tainted = true
 			relaxed = true
 			s.Probe("kern.map-full")
+			if !f.p.tcp {
+				d = st.route(f) // nothing is remembered for this tuple: every datagram is a first packet
+				first = true
+			}
 		}
 	}
 	lan := f.kind == 0 || f.kind == 3
